@@ -1,6 +1,6 @@
 SPECIFICATION Spec
 CONSTANTS
-  MaxSteps = 4
-  Subs = {"emit"}
+  MaxSteps = 3
+  Subs = {"emit", "build"}
 INVARIANTS FreshEqualsReused Dependencies FedIsCurrent EmitCase
 CHECK_DEADLOCK FALSE
